@@ -32,9 +32,16 @@ ASSUMPTIONS = ["defaults that are fresh per call (Instance with args, UUID) are 
 LOG = []
 
 
+class Leaf(HasTraits):
+    n = Int
+
+
 class Child(HasTraits):
     value = Int
     xs = List(Int)
+    # mutable values that the owner M also reaches through DEFERRING attributes (c_leaf, c_anys, p_leaf below)
+    leaf = Instance(Leaf)
+    anys = List(T.Any)
 
 
 class Palette(HasTraits):
@@ -44,6 +51,9 @@ class Palette(HasTraits):
 class M(HasTraits):
     # declared before the Instance trait holding the prototype, on purpose
     a_shade = PrototypedFrom("z_palette", "shade")
+    c_leaf = T.DelegatesTo("child", "leaf")
+    c_anys = T.DelegatesTo("child", "anys")
+    p_leaf = PrototypedFrom("child", "leaf")
     li = List(Int)
     ll = List(List(Int))
     lll = List(List(List(Int)))
@@ -187,7 +197,7 @@ def objects_run(case, ctx):
         elif k == "si":
             o.si.add(op[1])
         elif k == "child":
-            o.child = Child(value=1, xs=[1]) if op[1] else None
+            o.child = Child(value=1, xs=[1], leaf=Leaf(n=3), anys=[[1], [2, 3]]) if op[1] else None
             interesting = interesting or op[1]
         elif k == "kid":
             o.kids.append(Child(value=op[1]))
@@ -293,9 +303,11 @@ def objects_run(case, ctx):
     if mode in ("clone_none", "clone_shallow", "copy_traits"):
         for ch in ([o.child] if o.child is not None else []) + list(o.kids):
             allowed_shared.add(id(ch.xs))
+            allowed_shared.add(id(ch.anys))
     if mode in ("clone_none", "clone_shallow", "copy_traits", "deepcopy"):
         for ch in o.dc.values():
             allowed_shared.add(id(ch.xs))         # Dict values are copied by reference unless a deep copy is asked for
+            allowed_shared.add(id(ch.anys))
         if mode in ("clone_shallow",) or True:
             for inner in o.sh_list:
                 allowed_shared.add(id(inner))
@@ -330,6 +342,20 @@ def objects_run(case, ctx):
         if mode not in ("clone_none", "clone_shallow", "copy_traits") and c.child is o.child:
             ctx.fail("state/shared-child", "%s: Instance child shared with the original" % mode)
         must_reject(ctx, "child.xs.append('x')", lambda: c.child.xs.append("x"), mode)
+        # what the owner also reaches through its deferring attributes must be copied like everything else below `child`
+        if mode not in ("clone_none", "clone_shallow", "copy_traits") and o.child.leaf is not None:
+            ctx.label("deferred-mutable-values")
+            if c.child.leaf is o.child.leaf or c.c_leaf is o.child.leaf or c.p_leaf is o.child.leaf:
+                ctx.fail("state/shared-child", "%s: the Leaf below child (also reached through c_leaf / p_leaf) is shared with the "
+                         "original" % mode)
+            if c.c_leaf is not c.child.leaf:
+                ctx.fail("state/value", "%s: c_leaf of the image is not the image's own child.leaf" % mode)
+            for i, inner in enumerate(o.child.anys):
+                if i < len(c.child.anys) and c.child.anys[i] is inner:
+                    ctx.fail("state/shared-container", "%s: the list child.anys[%d] (also reached through c_anys) is shared with the "
+                             "original" % (mode, i))
+            if [list(x) for x in c.child.anys] != [list(x) for x in o.child.anys] or c.child.leaf.n != o.child.leaf.n:
+                ctx.fail("state/value", "%s: child.anys / child.leaf.n differ: %r / %r" % (mode, c.child.anys, o.child.anys))
     del LOG[:]
     before = list(o.li)
     c.li.append(3)
